@@ -1469,7 +1469,8 @@ MANIFEST = {
             "one pair of sessions acting in both roles (incl. prefix registrations/subscriptions, self-"
             "calls, key removal/re-installation) x 8 asymmetric keyring layouts, each operation judged by "
             "a capability model and against the same operation on fresh sessions."
-            " Altered EVENTs also arrive under the publication id of a genuine EVENT delivered before; payloads include text values that look like '0x' hex literals.",
+            " Altered EVENTs also arrive under the publication id of a genuine EVENT delivered before; payloads include text values that look like '0x' hex literals."
+            " A keyring layout with nested prefix keys on one side where the peer holds the more specific key only (the longest matching prefix governs).",
     "note": "Trusted: harness/wamp_b2b.py router (relays payload fields verbatim), PyNaCl. Keys are "
             "6 fixed pairs; payload/URI menus; replay of unmodified ciphertexts and reflection are "
             "outside the fault model; 'covered' follows the URI-scoped key lookup of the keyring.",
